@@ -280,14 +280,21 @@ def run_batch(batch):
         elif mode == 'body':
             vs = tvars(C('x', s, t))
             lines.append("w%d(%s) :- %s = %s." % (i, ",".join(vs) if vs else "x", text(s), text(t)))
-            goals.append("w%d(%s)" % (i, ",".join("_" for _ in vs) if vs else "x"))
+            goals.append("w%d(%s)" % (i, ",".join("Q%d" % k for k in range(len(vs))) if vs else "x"))
         else:
             raise ValueError(mode)
     out = []
 
+    base = []
+
     def fresh():
+        # an engine whose run was aborted by an exception keeps its stack: take a new engine on the same
+        # (already compiled) database
         e = DefaultEngine()
-        return e, e.prepare(PrologString("\n".join(lines) + "\n"))
+        if not base:
+            base.append(e.prepare(PrologString("\n".join(lines) + "\n")))
+            return e, base[0]
+        return e, e.prepare(base[0])
     try:
         eng, db = fresh()
     except Exception as e:  # the generated program itself must load
@@ -297,12 +304,12 @@ def run_batch(batch):
             eng, db = fresh()     # an exception leaves the engine's stack in an undefined state
         try:
             q = Term.from_string(g)
-            res = pl.with_timeout(eng.query, 10, db, q)
+            res = pl.with_timeout(eng.query, 60, db, q)
             out.append(('ok', [canon(C('ans', *[from_pl(a) for a in r])) for r in res]))
         except BaseException as e:  # noqa
             if isinstance(e, (KeyboardInterrupt, SystemExit)):
                 raise
-            out.append(('err', pl.err_class(e)))
+            out.append(('err', 'OccursCheck' if type(e).__name__ == 'OccursCheck' else pl.err_class(e)))
             eng = None
     return out
 
@@ -466,37 +473,81 @@ def instance_of(general, specific):
     return go(general, specific)
 
 
+def rename_apart(t, suffix="'"):
+    if t[0] == 'v':
+        return ('v', str(t[1]) + suffix)
+    if t[0] == 'c':
+        return ('c', t[1], tuple(rename_apart(a, suffix) for a in t[2]))
+    return t
+
+
+def numeric_atoms_as_numbers(t):
+    if t[0] == 'k' and len(t) > 3 and t[3]:
+        try:
+            return ('k', 'i', int(t[2]))
+        except ValueError:
+            try:
+                return ('k', 'f', float(t[2]))
+            except ValueError:
+                return t
+    if t[0] == 'c':
+        return ('c', t[1], tuple(numeric_atoms_as_numbers(a) for a in t[2]))
+    return t
+
+
+def repeated_var(t):
+    seen = set()
+
+    def go(u):
+        if u[0] == 'v':
+            if u[1] in seen:
+                return True
+            seen.add(u[1])
+            return False
+        if u[0] == 'c':
+            return any([go(a) for a in u[2]])
+        return False
+    return go(t)
+
+
 def classify(mode, s, t, expected, observed):
-    """Narrow class name for a disagreement, or None."""
-    exp_ok = expected is not None
+    """Narrow class (input features + symptom) of a disagreement, or None.
+    Classes:
+      <door>-indirect-occurs-check-missed   no unifier, the only obstacle is the occurs check (the pair unifies over
+                                            rational trees); symptom: = / head call succeeds, \\= fails
+      <door>-bindings-not-propagated        goal with a repeated variable; unifiable; symptom: exactly one answer that is strictly
+                                            more general than the mgu instance (eq/head: goal asked at top level through
+                                            engine.query; body: `w(Vars) :- S = T`, sharing between returned bindings is lost)
+      head-quoted-atom-not-matched          a quoted atom occurs; unifiable; symptom: the call against the clause head fails
+      quoted-numeric-atom-equals-number     a quoted atom spelled like a number occurs and the pair would unify if that atom
+                                            were the number; symptom: = / head call succeeds, \\= fails"""
     if observed[0] == 'err':
         return None
     obs = observed[1]
     door = {'eq': 'eq', 'body': 'eq', 'neq': 'neq', 'call': 'head', 'callN': 'head'}[mode]
+    if mode == 'callN':     # only the argument lists are matched; the two functors play no role
+        s, t = C('ans', *s[2]), C('ans', *t[2])
+    t_cls = rename_apart(t) if door == 'head' else t
     if mode == 'neq':
-        # expected is a bool here (True: \= must succeed)
-        if expected is False and obs and rational_unifiable(s, t) is True:
-            return None
-        if expected is True and not obs and rational_unifiable(s, t):
-            # = wrongly succeeds because an indirect cycle is not detected, so \= wrongly fails
-            return "neq-indirect-occurs-check-missed"
-        if expected is True and not obs and (quoted_numeric(s) or quoted_numeric(t)):
-            return "quoted-numeric-atom-equals-number"
-        return None
-    if not exp_ok and obs:
-        if rational_unifiable(s, t):
+        exp_ok, succeeded = (not expected), (not obs)     # in terms of the underlying unification
+    else:
+        exp_ok, succeeded = expected is not None, bool(obs)
+    if not exp_ok and succeeded:
+        if rational_unifiable(s, t_cls):
             return "%s-indirect-occurs-check-missed" % door
-        if quoted_numeric(s) or quoted_numeric(t):
+        if (quoted_numeric(s) or quoted_numeric(t)) and \
+                rational_unifiable(numeric_atoms_as_numbers(s), numeric_atoms_as_numbers(t_cls)):
             return "quoted-numeric-atom-equals-number"
         return None
-    if exp_ok and not obs:
+    if mode == 'neq':
+        return None
+    if exp_ok and not succeeded:
         if door == 'head' and (has_quoted(s) or has_quoted(t)):
             return "head-quoted-atom-not-matched"
         return None
     if exp_ok and len(obs) == 1 and obs[0] != expected:
-        if instance_of(obs[0], expected):
-            # engine answer is strictly more general than the mgu instance: some binding was not propagated
-            return "%s-bindings-not-propagated" % door
+        if instance_of(obs[0], expected) and repeated_var(C('x', s, t) if door == 'eq' else s):
+            return "%s-bindings-not-propagated" % ('body' if mode == 'body' else door)
         return None
     return None
 
@@ -572,10 +623,12 @@ def judge(ctx, enc, exe, cases):
             # an occurs-check situation may raise a ProbLog error instead of failing, never otherwise
             if unif:
                 ok, why = False, "raised %s although the terms are unifiable" % ob[1]
-            elif ob[1] == 'GroundingError' and rational_unifiable(s, t):
-                ok = True
+            elif ob[1] == 'OccursCheck':
+                ok = True     # not unifiable, and the engine says "infinite unification": allowed by the property
+                if not rational_unifiable(s, t):
+                    ctx.count("occurs_check_error_on_pair_that_also_clashes")
             else:
-                ok, why = False, "raised %s on a plain non-unifiable pair" % ob[1]
+                ok, why = False, "raised %s on a non-unifiable pair" % ob[1]
         elif mode == 'neq':
             if exp and len(ob[1]) != 1:
                 ok, why = False, "\\= failed although the terms have no unifier"
@@ -594,6 +647,10 @@ def judge(ctx, enc, exe, cases):
             nbad += 1
             klass = classify(mode, s, t, exp, ob)
             ctx.count("disagree_" + str(klass))
+            seen = ctx.__dict__.setdefault("_c14_reported", {})
+            seen[klass] = seen.get(klass, 0) + 1
+            if seen[klass] > (25 if klass is None else 4):
+                continue            # counted in the histogram; replay files only for the first few of a class
             goal = {"eq": "%s = %s", "neq": "%s \\= %s", "call": "fact p(%s) called as p(%s)" if False else "call p(%s) against fact p(%s)",
                     "callN": "call %s against fact %s", "body": "w(Vars) :- %s = %s"}[mode] % (text(s), text(t))
             ctx.violation("%s: %s" % (goal, why),
@@ -632,13 +689,14 @@ def named_anon(t, counter):
 
 
 def make_cases(pairs, modes):
+    """`_` stays anonymous only inside program text (facts); goals handed to engine.query() get named
+    variables instead, because that API identifies all Var('_') of a goal by name."""
     cases = []
     for s, t in pairs:
         for m in modes:
-            s2, t2 = s, t
-            if m in ('eq', 'body'):
-                c = [0]
-                s2, t2 = named_anon(s, c), named_anon(t, c)
+            c = [0]
+            s2 = named_anon(s, c)
+            t2 = t if m in ('call', 'callN') else named_anon(t, c)
             if m == 'callN':
                 if not (s[0] == 'c' and t[0] == 'c'):
                     continue
@@ -647,7 +705,7 @@ def make_cases(pairs, modes):
 
 
 def run(ctx):
-    ctx.cov["rule"] = ("(1) all ordered pairs of terms of size<=3 (thorough: <=4) over f/1, g/2, list cells and leaves {a,b,1,X,Y,Z} "
+    ctx.cov["rule"] = ("(1) all ordered pairs of terms of size<=3 (thorough: also a random half of all pairs of size <=4) over f/1, g/2, list cells and leaves {a,b,1,X,Y,Z} "
                        "plus sampled pairs of size<=3 over a larger leaf set (quoted atoms, negative/multi-digit ints, floats, strings, [], _), each through =, \\=, fact call, "
                        "argument-spread fact call and body-= with returned bindings; (2) random pairs of depth<=4 with up to 6 "
                        "shared variables, half of them mutations of one another so that about half are unifiable. "
@@ -655,7 +713,9 @@ def run(ctx):
     ctx.assumptions += [
         "the Python glue renders model terms as ProbLog text and reads engine answers back faithfully",
         "atoms are identified after removing quotes ('a' is a), numbers by value, int 1 and float 1.0 and atom '1' are different constants (ISO)",
-        "an engine error is acceptable only as a GroundingError (OccursCheck) on a pair whose only obstacle is the occurs check",
+        "an engine error is acceptable only as OccursCheck (a GroundingError, hence a ProbLogError) on a pair that has no unifier; "
+        "this includes pairs that also clash elsewhere, and it is accepted for \\= as well as for = (the property lets an "
+        "occurs-check situation raise instead of fail)",
     ]
     ok = ctx.prove("C14/Props.v")
     if ctx.tier == "thorough":
@@ -671,19 +731,22 @@ def run(ctx):
         judge(ctx, enc, exe, [(r["mode"], tup(r["s_term"]), tup(r["t_term"]))])
         return
     # (0) regression corpus: hand-picked witnesses of each class
-    X, Y, Z, Aa, Bb = V('X'), V('Y'), V('Z'), A('a'), A('b')
-    seeds = [
-        (X, C('f', X)), (C('f', X, Y, X), C('f', Y, C('g', Z), Z)), (C('g', X, C('g', Y, Z)), C('g', C('g', Y, Z), C('g', Aa, Y))),
-        (C('g', X, X), C('g', Y, C('f', Y))), (C('g', X, C('f', X)), C('g', Y, Y)), (C('f', X, Y), C('f', Y, Aa)),
-        (A('a', True), Aa), (I(1), A('1', True)), (I(1), F(1.0)), (S('a'), Aa), (C('h', X, Y, X, Y), C('h', Z, V('W'), C('f', V('W')), Z)),
-    ]
+    import json
+    import os
+
+    def tup(x):
+        return tuple(tup(y) for y in x) if isinstance(x, list) else x
+    with open(os.path.join(vf.CORPUS, "C14", "seeds.json")) as f:
+        seeds = [(tup(a), tup(b)) for a, b in json.load(f)["pairs"]]
     judge(ctx, enc, exe, make_cases(seeds, modes))
     # (1) bounded exhaustive
     if ctx.tier == "thorough":
-        ts = terms_by_size(LEAVES_SMALL, 4)       # 312 terms -> 97 344 ordered pairs
-        pairs = [(s, t) for s in ts for t in ts]
+        ts = terms_by_size(LEAVES_SMALL, 4)       # 312 terms -> 97 344 ordered pairs, a fixed-seed half of them
+        pairs = [(s, t) for s in ts for t in ts if ctx.rng.random() < 0.5]
+        ts3 = terms_by_size(LEAVES_SMALL, 3)
+        pairs += [(s, t) for s in ts3 for t in ts3]
         ts_extra = terms_by_size(LEAVES_MED, 3)
-        pairs += [(ctx.rng.choice(ts_extra), ctx.rng.choice(ts_extra)) for _ in range(30000)]
+        pairs += [(ctx.rng.choice(ts_extra), ctx.rng.choice(ts_extra)) for _ in range(15000)]
     else:
         ts = terms_by_size(LEAVES_SMALL, 3)       # 90 terms -> 8 100 ordered pairs
         pairs = [(s, t) for s in ts for t in ts]
@@ -692,7 +755,7 @@ def run(ctx):
     ctx.cov["exhaustive_pairs"] = len(pairs)
     judge(ctx, enc, exe, make_cases(pairs, modes))
     # (2) random larger pairs
-    nrand = ctx.n(2500, 60000)
+    nrand = ctx.n(2500, 40000)
     rp = [rand_pair(ctx.rng, LEAVES_MED) for _ in range(nrand)]
     ctx.cov["random_pairs"] = len(rp)
     judge(ctx, enc, exe, make_cases(rp, modes))
